@@ -1426,12 +1426,16 @@ PRELUDE = r'''
 uint8_t nondet_u8(void); uint16_t nondet_u16(void); uint32_t nondet_u32(void); uint64_t nondet_u64(void); _Bool nondet_bool(void);
 /* every symbolic input passes through one of these, so that the driver can read
    the input stream of a counterexample from the assignments to vf_nd_value */
-uint8_t vf_nd_u8(void) { uint8_t vf_nd_value = nondet_u8(); return vf_nd_value; }
-uint16_t vf_nd_u16(void) { uint16_t vf_nd_value = nondet_u16(); return vf_nd_value; }
-uint32_t vf_nd_u32(void) { uint32_t vf_nd_value = nondet_u32(); return vf_nd_value; }
-uint64_t vf_nd_u64(void) { uint64_t vf_nd_value = nondet_u64(); return vf_nd_value; }
-_Bool vf_nd_bool(void) { _Bool vf_nd_value = nondet_bool(); return vf_nd_value; }
+/* the always-true assertion keeps every input inside the cone of influence, so that
+   --slice-formula cannot drop it from a counterexample trace (the replay stream must be complete) */
+#define VF_ND_KEEP(v) __CPROVER_assert(!((v) == 1 && (v) == 2), "VF-KEEP input recorded")
+uint8_t vf_nd_u8(void) { uint8_t vf_nd_value = nondet_u8(); VF_ND_KEEP(vf_nd_value); return vf_nd_value; }
+uint16_t vf_nd_u16(void) { uint16_t vf_nd_value = nondet_u16(); VF_ND_KEEP(vf_nd_value); return vf_nd_value; }
+uint32_t vf_nd_u32(void) { uint32_t vf_nd_value = nondet_u32(); VF_ND_KEEP(vf_nd_value); return vf_nd_value; }
+uint64_t vf_nd_u64(void) { uint64_t vf_nd_value = nondet_u64(); VF_ND_KEEP(vf_nd_value); return vf_nd_value; }
+_Bool vf_nd_bool(void) { _Bool vf_nd_value = nondet_bool(); VF_ND_KEEP(vf_nd_value); return vf_nd_value; }
 void vf_observe(uint64_t x) {}
+void* memchr(const void* s, int c, size_t n) { const unsigned char* p = (const unsigned char*)s; for (size_t i = 0; i < n; i++) if (p[i] == (unsigned char)c) return (void*)(p + i); return 0; }
 #else
 #define vf_nd_u8 nondet_u8
 #define vf_nd_u16 nondet_u16
@@ -1447,11 +1451,12 @@ int bcmp(const void* a, const void* b, size_t n) { return memcmp(a, b, n) != 0; 
 #ifndef IR_TRAP
 #define IR_TRAP() do { __CPROVER_assert(0, "IR trap reached"); __CPROVER_assume(0); } while (0)
 #endif
-void vf_virtual_dtor_stub(void* p) { __CPROVER_assert(0, "virtual destructor invoked (harnesses must not destroy polymorphic objects)"); }
+void vf_virtual_dtor_stub(void* p) { __CPROVER_assert(0, "virtual destructor or out-of-scope virtual function invoked (harnesses must not destroy polymorphic objects)"); __CPROVER_assume(0); }
 static inline void* vf_nonnull(void* p) { __CPROVER_assume(p != 0); return p; }
 #define VF_TYPED_ALLOC(T, k) vf_nonnull(malloc(sizeof(T) * (k)))
 #define VF_BYTES_ALLOC(n) vf_nonnull(malloc(n))
-#define VF_BYTES_ALLOC_N(n) ({ __CPROVER_assert((n) <= 16, "model: dynamic byte buffer larger than 16 (outside bound)"); __CPROVER_assume((n) <= 16); vf_nonnull(malloc(16)); })
+static void* vf_alloc(uint64_t n);   /* size-class allocator, models/cxx.c */
+#define VF_BYTES_ALLOC_N(n) vf_alloc(n)
 #ifndef VF_CAP
 #define VF_CAP 8
 #endif
@@ -1515,6 +1520,7 @@ def main():
     ap.add_argument('--ctors', action='store_true')
     ap.add_argument('--models', action='append', default=[])
     ap.add_argument('--stub-virtual-dtors', action='store_true')
+    ap.add_argument('--stub-virtual', action='append', default=[], help='regex: vtable entries whose mangled name matches are replaced by an asserting stub')
     ap.add_argument('--list', help='write the mangled names of all translated function bodies here')
     a = ap.parse_args()
     m = parse_module(open(a.input).read())
@@ -1522,9 +1528,12 @@ def main():
     opts = O(); opts.stubs = dict(x.split('=', 1) for x in a.stub); opts.roots = set(a.root)
     if a.stub_virtual_dtors:
         dtor_re = re.compile(r'D[012]Ev$')
+        sv_res = [re.compile(x) for x in a.stub_virtual]
         def scrub(v):
             if isinstance(v, tuple):
                 if len(v) == 2 and v[0] == 'global' and isinstance(v[1], str) and dtor_re.search(v[1]) and v[1] in m.funcs:
+                    return ('global', 'vf_virtual_dtor_stub')
+                if len(v) == 2 and v[0] == 'global' and isinstance(v[1], str) and v[1] in m.funcs and any(r.search(v[1]) for r in sv_res):
                     return ('global', 'vf_virtual_dtor_stub')
                 return tuple(scrub(x) for x in v)
             if isinstance(v, list):
@@ -1607,7 +1616,8 @@ def main():
         with open(a.list, 'w') as fl:
             for n in m.funcs:
                 if n in fseen and not m.funcs[n].is_decl and n not in opts.stubs: fl.write(n + '\n')
-            fl.write('#external ' + ' '.join(missing) + '\n')
+            extg = [n for n in m.globals if n in gseen and m.globals[n]['external'] and n != '__dso_handle']
+            fl.write('#external ' + ' '.join(missing + extg) + '\n')
     sys.stderr.write('ir2c: %d functions, %d globals; external (need models): %s\n' % (len(bodies), len(gdecl), ' '.join(missing)))
 
 if __name__ == '__main__':
